@@ -1,4 +1,6 @@
 """C06 Motion profile accessors agree with each other at every instant."""
+import os
+
 from .. import mp
 from ..core import Harness
 
@@ -85,6 +87,19 @@ mod c06 {
         check_instant(&m, end, ta, Some(max_t(max_t(t1, t2), t3)));
         vk_end!();
     }
+    // (c') the same ordering clause on a bounded input grid: positions / velocities / limits k * 0.25 with k in i8
+    // (limits non-zero). Within this grid the clause IS decided (CaDiCaL); outside it, it is not (see not_decided).
+    #[kani::proof]
+    fn c06_constructor_orders_phases_grid() {
+        let g = || -> f32 { let k: i8 = kani::any(); (k as f32) * 0.25 };
+        let i = In { p0: g(), v0: g(), a0: 0.0, p1: g(), v1: g(), a1: 0.0, mv: g(), ma: g() };
+        let m = build(&i);
+        let p = parts(&m);
+        vk_assert!(0 <= p.t1, "C06.ctor_grid.t1_non_negative");
+        vk_assert!(p.t1 <= p.t2, "C06.ctor_grid.t1_le_t2");
+        vk_assert!(p.t2 <= p.t3, "C06.ctor_grid.t2_le_t3");
+        vk_end!();
+    }
     // (c) the constructor either panics or yields 0 <= t1 <= t2 <= t3
     #[kani::proof]
     fn c06_constructor_orders_phases() {
@@ -106,6 +121,9 @@ def spec(ctx):
         Harness("c06_pieces_never_go_back", "e2", split=True, timeout=400, clause="arbitrary phase boundaries (hook): piece order monotone in t; exact intervals when ordered"),
     ]
     nd = ["phase boundaries at or beyond 2^60 ns (rrtk's checked i64 arithmetic may panic there)"]
+    if not ctx.quick and os.environ.get("VK_C06_GRID"):
+        hs.append(Harness("c06_constructor_orders_phases_grid", "e1", timeout=3000, allow_fail=CTOR_REJECTS,
+                          clause="constructor ordering 0 <= t1 <= t2 <= t3 on the input grid k*0.25, k in i8 (6 inputs)"))
     # measured (thorough run, 2026-10-03): t1 >= 0 is proved, t1 <= t2 and t2 <= t3 do not finish in 900 s per query on either solver.
     # They need monotonicity of f32 '+', '* 1e9' and of the saturating float->int cast: non-structural facts. The harness is kept
     # in the generated crate for reference but is not part of either tier.
